@@ -174,6 +174,7 @@ def gen_world(rng, policy=None, allow_zero_runtime=False, closed_loop=False, con
         "scheduler_run_at_worker_free": rng.random() < 0.2,
         "drop_skipped_tasks": rng.random() < 0.25,
         "resolve_conditionals_at_submission": rng.random() < 0.3,
+        "decompose_deadlines": rng.random() < 0.15,      # per-task deadlines that differ from the graph's deadline
     }
     if any(g.get("release_policy") == "periodic" for g in graphs):
         flags["loop_timeout"] = rng.choice([100, 60, 120])      # periodic releases run until the horizon
@@ -200,6 +201,8 @@ def gen_fuzz_world(rng):
                  "p_cancel": rng.choice([0.0, 0.05, 0.15]), "p_unplaced": rng.choice([0.05, 0.15, 0.4]),
                  "p_future": rng.choice([0.0, 0.4, 0.8])}
     w["fuzz"]["p_keep"] = rng.choice([0.0, 0.5, 0.9]) if w["fuzz"]["retract"] else 0.0
+    w["fuzz"]["p_worker"] = rng.choice([0.0, 0.5, 1.0])       # placements that name a worker of the pool
+    w["fuzz"]["coarse_units"] = rng.random() < 0.3            # placement times given in ms / s when exact
     f["loop_timeout"] = min(f["loop_timeout"], rng.choice([300, 1000, 3000]))   # refused placements are retried every microsecond
     w["policy"] = "FUZZ"
     w["flags"]["scheduler"] = "EDF"         # unused: the harness substitutes its own policy
@@ -252,7 +255,7 @@ def gen_direct_world(rng):
                                             if all(":any" in k for k in st["resource_requirements"])][:1] or \
                 [{"batch_size": 1, "runtime": rng.choice(RUNTIMES), "resource_requirements": {"%s:any" % sorted(caps[0])[0]: 1}}]
             profiles.append(prof)
-            t = {"name": n, "profile": pname, "children": children, "deadline": rng.choice([400, 1000, 5000])}
+            t = {"name": n, "profile": pname, "children": children, "deadline": rng.choice([400, 1000, 5000, 100000])}
             if n not in has_parent:
                 t["release"] = rng.choice([0, 0, 5, 20, 45, 85])
             tasks.append(t)
@@ -361,4 +364,8 @@ def signature(world):
         or (not fz and (f.get("scheduler") in PLANNERS or f.get("scheduler") == "Clockwork"))
     if direct and cancels:
         sig.add("join_direct_edge_cancelling")
+    # known finding F41: time values that are not expressed in microseconds reach the CSV rows as raw magnitudes
+    if (fz and fz.get("coarse_units")) or any(t.get("deadline", 1) % 1000 == 0 for g in world.get("direct", {}).get("graphs", [])
+                                               for t in g["tasks"]):
+        sig.add("non_us_times")
     return sig
